@@ -840,6 +840,15 @@ func (c *Ctx) coerce(x Term, s Sort) Term {
 		return App(SF, "xfin", ToReal(x))
 	case x.Sort == SF && s == SReal:
 		return App(SReal, "xval", x)
+	// bit-precise <-> idealised floats: the same uninterpreted change of representation as at call boundaries
+	case x.Sort == SFP && s == SReal:
+		return App(SReal, "fp2real", x)
+	case x.Sort == SFP && s == SF:
+		return App(SF, "fp2xf", x)
+	case x.Sort == SReal && s == SFP:
+		return App(SFP, "real2fp", x)
+	case x.Sort == SF && s == SFP:
+		return App(SFP, "xf2fp", x)
 	}
 	c.refuse("cannot coerce %s : %s to %s", x.S, x.Sort, s)
 	return x
